@@ -384,6 +384,7 @@ CROSS = {
     ('htp_connp_REQ_CONNECT_PROBE_DATA', 'out_status', 'R'): 'guard of that store: a response side in ERROR or STOP keeps its final state (C09.f, D23 repair)',
     ('htp_connp_REQ_CONNECT_WAIT_RESPONSE', 'response_status_number', 'R'): 'the answer to the CONNECT decides tunnel vs HTTP',
     ('htp_connp_REQ_CONNECT_WAIT_RESPONSE', 'response_progress', 'R'): 'the CONNECT wait gate (C16.c / C16.g)',
+    ('htp_connp_RES_IDLE', 'in_status', 'R'): 'the dangling request is completed from the response side only while the request direction has not reported ERROR / STOP (C09.j, D44)',
     ('htp_connp_RES_BODY_DETERMINE', 'request_method_number', 'R'): 'CONNECT / HEAD decide how the response is framed',
     ('htp_connp_RES_BODY_DETERMINE', 'request_headers', 'R'): 'Expect: 100-continue of the request',
     ('htp_connp_RES_BODY_DETERMINE', 'in_body_data_left', 'R'): 'has the request body been started (C06.e)',
